@@ -123,6 +123,12 @@ func generate(r *prng.R, o *hx.Out) *scenario {
 		}
 	}
 	// operations
+	height := uint32(r.Range(0, 20))
+	if r.Chance(1, 50) {
+		height = 4294967290 + uint32(r.Intn(6)) // uint32 wrap-around of the height
+	}
+	thr := uint32([]int{0, 0, 1, 1, 2, 3}[r.Intn(6)])
+	sc.ops = append(sc.ops, op{kind: opThreshold, h: thr}, op{kind: opHeight, h: height})
 	nops := r.Range(8, 40)
 	pooledGuess := map[int]bool{}
 	for j := 0; j < nops; j++ {
@@ -150,6 +156,15 @@ func generate(r *prng.R, o *hx.Out) *scenario {
 						sc.ops = append(sc.ops, op{kind: opBal, pk: pk, amt: nb[pk]})
 					}
 				}
+			}
+			if r.Chance(4, 5) {
+				height++
+			} else {
+				height += uint32(r.Range(0, 3))
+			}
+			sc.ops = append(sc.ops, op{kind: opHeight, h: height})
+			if r.Chance(1, 25) {
+				sc.ops = append(sc.ops, op{kind: opThreshold, h: uint32(r.Intn(4))})
 			}
 			st := op{kind: opStale}
 			if r.Chance(1, 3) {
